@@ -77,7 +77,7 @@ func (es *effectScan) visit(fn *ssa.Function) {
 			return
 		}
 		if cc.IsInvoke() {
-			for _, impl := range modSetsOf(p).implsOf(cc.Method) {
+			for _, impl := range modSetsOf(p).implsOfCall(cc) {
 				es.visit(impl)
 			}
 			return
